@@ -928,7 +928,7 @@ def run(ctx):
         KMODE.disable()
         ctx.add_sample(dict(vector=kvecs[len(kvecs) // 2]))
         run_e2e(ctx, 60 if q else 600, 20 if q else 60, nk=16 if q else 120)
-        nr = run_routes(ctx, [w['walk'] for w in walks], 3 if q else 6)
+        nr = run_routes(ctx, [w["walk"] for w in walks], 3 if q else 4)
         ctx.note('entry points: %d exported histories x scenarios replayed (model / model_contrib / model_full_contrib x 3 grid sizes)' % nr)
         from .. import history
         history.run_history(ctx, history_scenarios(), 12 if q else 120)
